@@ -1,5 +1,6 @@
 import Driver.OpsTrans
 import TT.Spec.Grammar
+import TT.RunGrammarFile
 namespace Driver
 open TT TT.Tree TT.Spec
 
@@ -115,12 +116,12 @@ def runOpGrammar (op : String) (args : List String) : String :=
         | .error e => encErr e)
     | _, _ => bad
   | "rcg_rewrite", [gl, ll] =>
-    -- `treetools grammar G DEST treebank --src-format rcg --dest-format rcg`: the grammar file as input yields that grammar
+    -- `treetools grammar G DEST treebank --src-format rcg --dest-format rcg`: TT.runGrammarFromFile (reader, then writer;
+    -- theorems in TT/Props/C09Lopar.lean)
     match decLines gl, decLines ll with
-    | some gl, some ll => (match readRcg gl ll with
-        | some (g, l) => let (a, b) := writeRcg false g l
-                         encLines a ++ " # " ++ (match b with | some b => encLines b | none => "none")
-        | none => "ERR:ValueError")
+    | some gl, some ll => (match TT.runGrammarFromFile gl ll with
+        | .ok (a, b) => encLines a ++ " # " ++ (match b with | some b => encLines b | none => "none")
+        | .error e => encErr e)
     | _, _ => bad
   | "read_rcg", [gl, ll] =>
     match decLines gl, decLines ll with
